@@ -1,6 +1,6 @@
 """Registration of the claimed properties (see DESIGN.md section 4)."""
 
-from .registry import register, SeqPart
+from .registry import register, SeqPart, ConcPart
 
 COMMON_ASSUME = [
     "the kernel file system (tmpfs sandbox) and CPython's os/io/shutil/tempfile/pathlib are correct",
@@ -52,10 +52,37 @@ register("C11", "exploration",
          [SeqPart("C11", focus=["meta"])])
 
 register("C16", "exploration",
-         SEQ_RULE + "; every history runs in multiprocessing mode (USE_MULTIPROCESSING=True, simulated "
+         "three parts: (seq-mp) " + SEQ_RULE + "; every history runs in multiprocessing mode (USE_MULTIPROCESSING=True, simulated "
          "multiprocessing primitives) and any disagreement is re-run in threading mode: only a difference "
-         "between the modes counts",
+         "between the modes counts; (conc-mp-obj, conc-mp-meta) the C07 / C12 scenarios with USE_MULTIPROCESSING=True: "
+         "tasks stand for forked processes (fork-view of the store object, shared simulated mp primitives, every "
+         "manager-list operation a yield point, PRNG-chosen wake-ups), oracles of C07/C12/C08",
          COMMON_ASSUME + ["contention among real OS-scheduled forked processes is outside the simulator; "
                           "processes are simulated tasks with fork-views of the store"],
          30, 420,
-         [SeqPart("C16", mp=True, name="seq-mp", focus=["op:store", "op:tag", "delete-ok", "meta"])])
+         [SeqPart("C16", mp=True, name="seq-mp", focus=["op:store", "op:tag", "delete-ok", "meta"]),
+          ConcPart("C16", "obj", mp=True, name="conc-mp-obj"),
+          ConcPart("C16", "meta", mp=True, name="conc-mp-meta", weight=0.6)])
+
+CONC_RULE = ConcPart.rule
+
+register("C07", "exploration", CONC_RULE,
+         COMMON_ASSUME + ["granularity = file-system call and lock operation (what the property names); "
+                          "StoreObjectForPidAlreadyInProgress accepted when a concurrent store_object or "
+                          "delete_object owns the pid; <= 4 tasks, <= 8 calls per scenario"],
+         40, 480,
+         [ConcPart("C07", "obj")])
+
+register("C12", "exploration", CONC_RULE,
+         COMMON_ASSUME + ["a racing reader may report not-found as ValueError or FileNotFoundError"],
+         40, 480,
+         [ConcPart("C12", "meta")])
+
+register("C08", "exploration",
+         CONC_RULE + "; C08 looks only at: scheduler never ends with a blocked unfinished task (deadlock) nor hits "
+         "the step cap, locked-identifier lists empty and every simulated lock free at quiescence, follow-up "
+         "delete/store/retrieve on every pid and store/retrieve_metadata on every document complete. The FAULT "
+         "runs of C13 apply the same oracles after an injected I/O error",
+         COMMON_ASSUME + ["blocking is simulated: a task that would block is parked by the scheduler, so slow != blocked"],
+         40, 480,
+         [ConcPart("C08", "obj", name="conc-obj"), ConcPart("C08", "meta", name="conc-meta", weight=0.7)])
